@@ -38,8 +38,13 @@ type RunSpec struct {
 	Sched    []int
 	Faults   []Fault
 	Pass     bool // no scheduler: calls go straight through (fresh, un-faulted analysis)
-	Free     bool // with Pass: free-running, no synchronisation in the stubs, no call budget (race detector run)
-	WFault   *WriteFault
+	// Salt is appended to every vulnerability id, alias, explicit and ignore entry of this run and
+	// stripped from what the run reports: every execution gets a database with fresh ids, so that
+	// process-global state keyed by advisory id inside the library cannot carry over from one run
+	// to the next (runs stay independent; the schedule of THIS run decides).
+	Salt   string
+	Free   bool // with Pass: free-running, no synchronisation in the stubs, no call budget (race detector run)
+	WFault *WriteFault
 }
 
 // Obs is what one execution showed.
@@ -88,6 +93,17 @@ func Execute(t *testing.T, w *World, spec RunSpec) *Obs {
 	if o == nil {
 		o = &w.Opts
 	}
+	if spec.Salt != "" {
+		so := *o
+		so.Ignore, so.Explicit = nil, nil
+		for _, x := range o.Ignore {
+			so.Ignore = append(so.Ignore, x+spec.Salt)
+		}
+		for _, x := range o.Explicit {
+			so.Explicit = append(so.Explicit, x+spec.Salt)
+		}
+		o = &so
+	}
 	if spec.Manifest != nil {
 		p, err := w.writeProject(spec.Dir, spec.Manifest)
 		if err != nil {
@@ -117,7 +133,7 @@ func Execute(t *testing.T, w *World, spec RunSpec) *Obs {
 
 	body := func(s *Sched) {
 		var cl resolve.Client = &SimClient{s: s, lc: w.localClient(), order: w.VersionsOrder}
-		vm := &SimMatcher{s: s, w: w, osv: w.osv()}
+		vm := &SimMatcher{s: s, w: w, osv: w.osv(spec.Salt)}
 		if spec.Free {
 			cl, vm.s = freeze(w.localClient()), nil
 		}
@@ -147,6 +163,9 @@ func Execute(t *testing.T, w *World, spec RunSpec) *Obs {
 			default:
 				panic("harness: unknown run kind " + spec.Kind)
 			}
+		}
+		if spec.Salt != "" {
+			unsalt(obs, spec.Salt)
 		}
 		if err != nil {
 			// error texts carry sandbox paths; keep observations independent of where the sandbox is
@@ -227,4 +246,27 @@ func copyTree(src, dst string) error {
 		}
 		return os.WriteFile(filepath.Join(dst, rel), b, 0o644)
 	})
+}
+
+// unsalt strips the run's id suffix from everything the run reported.
+func unsalt(obs *Obs, salt string) {
+	us := func(vs []result.Vuln) {
+		for i := range vs {
+			vs[i].ID = strings.TrimSuffix(vs[i].ID, salt)
+		}
+	}
+	us(obs.Res.Vulnerabilities)
+	for i := range obs.Res.Patches {
+		us(obs.Res.Patches[i].Fixed)
+		us(obs.Res.Patches[i].Introduced)
+	}
+	if obs.An != nil {
+		for i := range obs.An.VulnIDs {
+			obs.An.VulnIDs[i] = strings.TrimSuffix(obs.An.VulnIDs[i], salt)
+		}
+		for i := range obs.An.Patches {
+			us(obs.An.Patches[i].Fixed)
+			us(obs.An.Patches[i].Introduced)
+		}
+	}
 }
